@@ -286,6 +286,28 @@ func runC20(env *lib.Env, rep *lib.Report) {
 			}
 		}
 	}
+	// (2b) repeated statements: the same statement twice in a row (or with one in between) and others around it,
+	// on one line and with Enter after the first statement (whatever the console remembers of what it has
+	// already seen - history, the previous submission - every statement typed is handed on once more)
+	for _, fa := range c20Fragments {
+		for _, fb := range c20Fragments {
+			a, b := c20Render(fa, 0), c20Render(fb, 0)
+			if a == b {
+				continue
+			}
+			for _, list := range [][]string{{a, a, b}, {a, b, b}, {a, b, a}, {a, a, a}, {a, a, b, b}, {b, a, a, b}} {
+				for _, first := range []string{" ", "\r"} {
+					betw := []string{first}
+					for len(betw) < len(list)-1 {
+						betw = append(betw, " ")
+					}
+					for _, ch := range []int{0, 1} {
+						check("repeated-statements", list, betw, "", ch)
+					}
+				}
+			}
+		}
+	}
 	// (3) length family: the accumulated buffer (all statements of the submission) around the 4096-rune limit
 	for _, total := range []int{4000, 4095, 4096, 4097, 5000} {
 		for _, lead := range [][]string{nil, {"USE d;"}, {"SELECT 'a;b' FROM t;", "USE d;"}} {
